@@ -50,7 +50,13 @@ def generate(tape, tier="quick"):
     events = gen_events(tape, 1, tape.weighted([(15, 4), (30, 4), (60, 2)]), halves=True)
     if t0:
         events = [[e[0], e[1] + t0, e[2]] if e[0] == "PUSH" else [e[0], e[1], e[2] + t0] for e in events]
-    return {"engine": "E3", "t0": t0, "src": {"units": ""}, "consumers": [{"chain": chain}], "events": events}
+    sc = {"engine": "E3", "t0": t0, "src": {"units": ""}, "consumers": [{"chain": chain}], "events": events, "api": tape.draw(16)}
+    if tape.chance(1, 3):
+        # the consumer declares a later start of its own in its metadata: the lower clamp stays the source's start
+        sc["consumers"][0]["info_t"] = t0 + tape.choice([1, 2, 5, 30])
+    if tape.chance(1, 5):
+        sc["src"]["mem_limit"] = tape.choice([0, 0, 10])
+    return sc
 
 
 def execute(sc):
